@@ -53,6 +53,13 @@ def main() -> int:
                          {"traceback": traceback.format_exception(type(e), e, e.__traceback__)[-6:]})
             traceback.print_exc()
             return chk.finish()
+        if "chk" in locals() and isinstance(e, (ValueError, OverflowError)) and ("NaN" in str(e) or "Infinity" in str(e) or "infinity" in str(e)) \
+                and "integer" in str(e):
+            # an exact-rational oracle was handed a NaN / infinity: the code under test returned a non-finite number where the unchanged code returns a finite one
+            chk.disagree(f"the code under test returned a non-finite number where the model (and the unchanged implementation) returns a finite one ({type(e).__name__}: {e})",
+                         {"traceback": traceback.format_exception(type(e), e, e.__traceback__)[-4:]})
+            traceback.print_exc()
+            return chk.finish()
         traceback.print_exc()
         print(f"HARNESS-ERROR {a.prop}: unexpected exception in the harness", file=sys.stderr)
         return 2
